@@ -708,3 +708,5 @@ _amend("C18", "otherwise the spelling marwood writes for the symbol, if it reads
 _amend("C19", "memq/member/memv, list-tail/list-ref}", "memq/member/memv, list-tail/list-ref, a dotted tail read from text and returned as a value}")
 _amend("C20", "One evaluation = one (text, cursor) pair",
        "Part 4: a quarter of the constructed texts are typed character by character into one highlighter value (cursor at and just before the end), after which the cursor walks back over the finished line. One evaluation = one (text, cursor) pair")
+_amend("C04", "per composition 3 (quick) / 6 (thorough) programs", "per composition 3 (quick) / 4 (thorough) programs")
+_amend("C04", "(eval-containing programs: 2*10^4 in quick)", "(eval-containing programs: 2*10^4; programs whose recursive step is (call/cc f), which keeps a chain of n continuations live: 10^4)")
